@@ -13,7 +13,8 @@ def base_classes(case):
     km = case.get('keymap')
     return ['algo:' + case['algo'], 'module:' + case['module'], 'backend:' + case['backend'],
             'purge:%r' % case['purge'], 'keymap:%s' % (km['cls'] + ('' if km.get('flat', True) else '-nonflat') + ('-typed' if km.get('typed') else '') if km else 'default'),
-            'eff_algo:' + H.effective_algo(case)]
+            'eff_algo:' + H.effective_algo(case)] + \
+        (['relative_dir_archive:' + case['relpath']] + (['chdir_away'] if any(op[0] == 'chdir' and op[1] for op in case['ops']) else []) if case.get('relpath') else [])
 
 
 def outcome(s, algo=None):
